@@ -779,7 +779,7 @@ func TestFrameTrees(t *testing.T) {
 		{
 			e := newEnv()
 			e.install(tree, true, tc.initStore) // funds the reference state used by the prediction
-			need := budget(tree, predFailOf(tree, e.m, rootKind.creates()))
+			need := budgetTamed(tree, predFailOf(tree, e.m, rootKind.creates()))
 			tc.gas = satAdd(need, need/4)
 			if rapid.IntRange(0, 9).Draw(t, "rootTight") == 0 {
 				tc.gas = tc.gas / 100 * uint64(rapid.SampledFrom([]int{10, 40, 70, 90}).Draw(t, "rootPct"))
